@@ -90,42 +90,55 @@ func RRepConst(c *core.Ctx) {
 		}
 		c.Visit(core.SSAName(fn))
 		seen := map[aff]bool{}
+		// the decoding arithmetic: in the function itself or in the small helpers of the package it calls
+		units := []*ssa.Function{fn}
 		for _, b := range fn.Blocks {
 			for _, ins := range b.Instrs {
-				bin, ok := ins.(*ssa.BinOp)
-				if !ok || bin.Op != token.SUB {
-					continue
-				}
-				// outermost SUB chains only: value used as call argument or switch tag
-				var leaf ssa.Value
-				var walk func(v ssa.Value)
-				walk = func(v ssa.Value) {
-					if bb, ok := v.(*ssa.BinOp); ok {
-						walk(bb.X)
-						walk(bb.Y)
-					} else if _, isC := v.(*ssa.Const); !isC {
-						leaf = v
+				if call, ok := ins.(*ssa.Call); ok {
+					if cal := call.Call.StaticCallee(); cal != nil && core.InModule(cal) && core.FnPkgPath(cal) == core.PkgRoot && len(cal.Blocks) <= 3 {
+						units = append(units, cal)
 					}
 				}
-				walk(bin)
-				if leaf == nil {
-					continue
-				}
-				used := false
-				for _, r := range core.Referrers(bin) {
-					if _, isBin := r.(*ssa.BinOp); isBin {
-						if rb := r.(*ssa.BinOp); rb.Op == token.SUB || rb.Op == token.ADD {
-							continue
+			}
+		}
+		for _, u := range units {
+			for _, b := range u.Blocks {
+				for _, ins := range b.Instrs {
+					bin, ok := ins.(*ssa.BinOp)
+					if !ok || bin.Op != token.SUB {
+						continue
+					}
+					// outermost SUB chains only: value used as call argument or switch tag
+					var leaf ssa.Value
+					var walk func(v ssa.Value)
+					walk = func(v ssa.Value) {
+						if bb, ok := v.(*ssa.BinOp); ok {
+							walk(bb.X)
+							walk(bb.Y)
+						} else if _, isC := v.(*ssa.Const); !isC {
+							leaf = v
 						}
 					}
-					used = true
-				}
-				if !used {
-					continue
-				}
-				if a, b2, ok := affine(bin, leaf, 0); ok && a == -1 && !seen[aff{a, b2}] {
-					seen[aff{a, b2}] = true
-					dec = append(dec, aff{a, b2})
+					walk(bin)
+					if leaf == nil {
+						continue
+					}
+					used := false
+					for _, r := range core.Referrers(bin) {
+						if _, isBin := r.(*ssa.BinOp); isBin {
+							if rb := r.(*ssa.BinOp); rb.Op == token.SUB || rb.Op == token.ADD {
+								continue
+							}
+						}
+						used = true
+					}
+					if !used {
+						continue
+					}
+					if a, b2, ok := affine(bin, leaf, 0); ok && a == -1 && !seen[aff{a, b2}] {
+						seen[aff{a, b2}] = true
+						dec = append(dec, aff{a, b2})
+					}
 				}
 			}
 		}
